@@ -1,6 +1,6 @@
 """C04 — images are re-uploaded exactly when the terminal may have lost the current one.
 
-K: IDManager.{mark_uploaded,get_upload_info,needs_uploading,cleanup_uploads} (+ the allocator ops that
+K: IDManager.{mark_uploaded,get_upload_info,get_upload_infos,needs_uploading,cleanup_uploads} (+ the allocator ops that
    recycle / overwrite / delete / re-issue ids in between) vs Tup.Model.{UploadInfo,Alloc,Db} through
    drv_db; every query result, every UploadInfo field and all six tables after every step.
 F: Tup.Spec.Retention — a ghost log of arrivals per terminal kept by the harness in the driver session
@@ -120,7 +120,10 @@ def gen_history(rng, length: int, backwards: bool = False) -> dict:
                 i, term, z = an_id(), rng.choice(terms), 1
             needs(i, term, z)
         elif r < 0.86:
-            add(op="upinfo", id=an_id(), term=rng.choice(terms))
+            if rng.random() < 0.5:
+                add(op="upinfo", id=an_id(), term=rng.choice(terms))
+            else:
+                add(op="upinfos", id=an_id())
         elif r < 0.89:
             add(op="cleanup_uploads", keep=rng.choice([0, 1, 2, 3, 5, 10, 1024]))
             # ask about old and new survivors right away, with a tight count threshold
@@ -150,6 +153,11 @@ def structured_cases():
     nd = lambda k, term="t1", mu=1024, mb=MIB20, mt=3_600_000_000, dt=1: {"op": "needs", "id": {"ref": k}, "term": term, "mu": mu, "mb": mb, "mt": mt, "dt": dt}
     # never uploaded -> needs; uploaded -> not; other terminal -> needs
     yield h([g("a"), nd(0), mk(0), nd(0), nd(0, term="t2"), {"op": "upinfo", "id": {"ref": 0}, "term": "t1", "dt": 0}])
+    # the read over all terminals of an id: none, one, two terminals, after a re-upload, a deletion and an upload-table clean-up
+    ui = lambda k, dt=0: {"op": "upinfos", "id": {"ref": k}, "dt": dt}
+    yield h([g("a"), g("b"), ui(0), mk(0, term="t1", size=3), ui(0), mk(1, term="t1", size=5), mk(0, term="t2", size=7), ui(0), ui(1),
+             mk(0, term="t1", size=9), ui(0), nd(0, term="t2"), {"op": "del", "id": {"ref": 0}, "dt": 1}, ui(0),
+             {"op": "cleanup_uploads", "keep": 1, "dt": 1}, ui(0), ui(1)])
     # the repo's own 4-image example shape: thresholds on count and bytes, boundaries
     yield h([g("1", (0, 256)), g("2", (0, 256)), g("3", (0, 256)), g("4", (0, 256)), mk(0, size=100), mk(1, size=200), mk(2, size=300), mk(3, size=400),
              nd(0, mu=4), nd(0, mu=3), nd(0, mb=1000), nd(0, mb=999), nd(1, mb=900), nd(1, mb=899), nd(3, mu=1), nd(3, mu=0), nd(3, mb=400), nd(3, mb=399)])
